@@ -669,11 +669,6 @@ fn check_s2<T: Rt>(kind: &str, v0: &T, stats: &Stats) -> Result<Outcome, Fail> {
         }
         Ok(Ok(b)) => b,
     };
-    if known_excluded(kind, &b1) {
-        // avar version 2 grows on every iteration (listed finding); excluded so that the search goes on behind it
-        stats.class("excluded_known");
-        return Ok(Outcome::default());
-    }
     let v1 = match guarded(|| v0.reread(&b1)) {
         Ok(Ok(v)) => v,
         _ => {
@@ -947,13 +942,13 @@ struct CorpusCase {
     table: String,
 }
 
-/// Known defects that make *every* value of a class fail (see /verif/kf_proposals/C04.json): excluded from the main
-/// stages by construction, reproduced by the small `known-*` stages.
-fn known_excluded(tag: &str, data: &[u8]) -> bool {
+/// Subjects of two repaired defects (fix commits a1b6484 avar v2 / VarLenArray byte range, 6388a31 CPAL version): the
+/// normal stages check them like everything else; the `regress-corpus` stage re-checks exactly these corpus tables.
+fn regression_subject(tag: &str, data: &[u8]) -> bool {
     match tag {
-        // avar version 2: the read-side `axis_segment_maps` getter runs past the array
+        // avar version 2 (the read-side `axis_segment_maps` getter used to run past the array)
         "avar" => data.len() >= 2 && u16::from_be_bytes([data[0], data[1]]) >= 2,
-        // CPAL version 1 with any v1 array present: the writer emits version 0 and drops them
+        // CPAL version 1 with any v1 array present (the writer used to emit version 0 and drop them)
         "CPAL" => {
             if data.len() >= 2 && u16::from_be_bytes([data[0], data[1]]) >= 1 {
                 let np = if data.len() >= 6 { u16::from_be_bytes([data[4], data[5]]) as usize } else { 0 };
@@ -967,15 +962,15 @@ fn known_excluded(tag: &str, data: &[u8]) -> bool {
     }
 }
 
-fn test_corpus(cx: &Corpus, c: &CorpusCase, stats: &Stats, include_known: bool) -> CaseResult {
+fn test_corpus(cx: &Corpus, c: &CorpusCase, stats: &Stats, regression_only: bool) -> CaseResult {
     let Some(f) = cx.index.font(&c.font) else { return Ok(()) };
     let tag = mutate::str_tag(&c.table);
     let Some((_, data)) = f.tables.iter().find(|t| t.0 == tag) else { return Ok(()) };
-    if known_excluded(&c.table, data) != include_known {
-        if !include_known {
-            stats.class("excluded_known");
+    if regression_only {
+        if !regression_subject(&c.table, data) {
+            return Ok(());
         }
-        return Ok(());
+        stats.class(&format!("regress:{}", c.table));
     }
     let args = cx.args.get(&c.font).copied().unwrap_or_default();
     let (out, offs) = dispatch_top(&c.table, data, args, Mode::S1, true, stats)?;
@@ -1233,8 +1228,9 @@ fn b_ivs_with(t: &mut Tape, zero_axes: bool) -> wt::variations::ItemVariationSto
     ItemVariationStore { variation_region_list: OffsetMarker::new(VariationRegionList { axis_count: axis_count as u16, variation_regions: regions }), item_variation_data: data }
 }
 
-fn b_avar(t: &mut Tape, v2: bool) -> wt::avar::Avar {
+fn b_avar(t: &mut Tape, force_v2: bool) -> wt::avar::Avar {
     use wt::avar::*;
+    let v2 = force_v2 || t.bool();
     let n = t.len(5);
     let maps = (0..n).map(|_| SegmentMaps::new((0..t.len(6)).map(|_| AxisValueMap::new(t.f2(), t.f2())).collect())).collect();
     let mut a = Avar::new(maps);
@@ -1560,8 +1556,9 @@ fn b_meta(t: &mut Tape) -> wt::meta::Meta {
     Meta { data_maps: maps }
 }
 
-fn b_cpal(t: &mut Tape, v1: bool) -> wt::cpal::Cpal {
+fn b_cpal(t: &mut Tape, force_v1: bool) -> wt::cpal::Cpal {
     use wt::cpal::*;
+    let v1 = force_v1 || t.bool();
     let e = t.len(4);
     let p = t.len(3);
     let n = e * p;
@@ -2612,14 +2609,10 @@ fn test_gen(c: &GenCase, stats: &Stats, known_stage: bool) -> CaseResult {
     let mut t = Tape::new(&c.tape);
     let t = &mut t;
     match c.kind.as_str() {
-        "avar" => {
-            let v = b_avar(t, known_stage);
-            run_gen("avar", &v, t, stats)
-        }
-        "CPAL" => {
-            let v = b_cpal(t, known_stage);
-            run_gen("CPAL", &v, t, stats)
-        }
+        "avar" => run_gen("avar", &b_avar(t, false), t, stats),
+        "avar-v2" => run_gen("avar", &b_avar(t, true), t, stats),
+        "CPAL" => run_gen("CPAL", &b_cpal(t, false), t, stats),
+        "CPAL-v1" => run_gen("CPAL", &b_cpal(t, true), t, stats),
         "fvar" => run_gen("fvar", &b_fvar(t, known_stage), t, stats),
         "STAT" => run_gen("STAT", &b_stat(t), t, stats),
         "name" => run_gen("name", &b_name(t), t, stats),
@@ -2676,12 +2669,12 @@ fn main() {
     let ctx = Ctx::from_args("C04");
     ctx.set_rule(
         "S1(a): every writable top-level table (25 tags) of every corpus font, unmutated. S1(b): a proptest tape (0..480 u32 words, 1/12 zero, 1/12 max) drives hand builders for 31 table/subtable kinds \
-         (avar v1, fvar with/without instances and postscript ids, STAT with value formats 1-4, name v0/v1, post 1/2/2.5/3, OS/2 v0/1/4/5, head, hhea, vhea, maxp 0.5/1.0, gasp, meta, CPAL v0, COLR v0/v1 with all 32 paint \
+         (avar v1/v2, fvar with/without instances and postscript ids, STAT with value formats 1-4, name v0/v1, post 1/2/2.5/3, OS/2 v0/1/4/5, head, hhea, vhea, maxp 0.5/1.0, gasp, meta, CPAL v0/v1, COLR v0/v1 with all 32 paint \
          formats, GDEF 1.0/1.2/1.3, MVAR/HVAR/VVAR, DeltaSetIndexMap f0/f1, ItemVariationStore short/long words, coverage/class/device formats, feature variations with all 5 condition formats, every GSUB and GPOS \
          lookup type incl. extension, whole GSUB/GPOS tables, cmap subtables 0/4/6/10/12/13/14, BASE, hmtx); count fields always derived from the arrays, nullable offsets generated both ways, array lengths \
          0/1/2-4/uniform with 1/24 large. S2: corpus tables (<= 48 KiB) under a strided field sweep (first 128 bytes) and havoc (1-6 edits), kept when they parse and validate. \
          Non-trivial: S1 - the value reaches >= 1 subtable through an offset or carries a non-default version/format discriminant; S2 - the mutated table parsed, validated and reached the idempotence comparison. \
-         Distinct by hash of the compiled bytes B. Stages known-corpus/known-gen only reproduce the listed findings (avar v2, CPAL v1, zero-sized records, fvar postscript id 0xFFFF), which the other stages exclude by construction.",
+         Distinct by hash of the compiled bytes B. Stages regress-corpus/regress-gen re-check the subjects of two repaired defects (avar v2, CPAL v1); stage known-gen only reproduces the listed findings (zero-sized records, fvar postscript id 0xFFFF), which the other stages exclude by construction.",
     );
     ctx.assume("read arguments of hmtx/vmtx/sbix are derived from the written value (h_metrics/bearings lengths, strike offsets)");
     ctx.assume("GSUB/GPOS values whose compilation promoted lookups to extension or split subtables are counted (`repacked`) and left to C05/C16");
@@ -2707,8 +2700,10 @@ fn main() {
     ctx.note("field_sweep_total", json!(total));
     ctx.index_stage("mut-sweep", Isolation::Threads, n, |i| sw[((i as u128 * total as u128) / n.max(1) as u128) as usize].clone(), |c, s| test_mut(&cx, c, s));
     ctx.prop_stage("mut-havoc", Isolation::Threads, ctx.n(120_000, 1_500_000), || mutate::havoc_strategy(&cx.index, MAX_MUT_TABLE, 6), |c, s| test_mut(&cx, c, s));
-    // small stages that keep reproducing the two listed defects (excluded by construction from the stages above)
-    ctx.index_stage("known-corpus", Isolation::Threads, cc.len() as u64, |i| cc[i as usize].clone(), |c, s| test_corpus(&cx, c, s, true));
-    ctx.prop_stage("known-gen", Isolation::Threads, ctx.n(400, 2_000), || gen_strategy(vec![("avar", 1), ("CPAL", 1), ("IVS-zero-axes", 1), ("fvar", 1)]), |c, s| test_gen(c, s, true));
+    // plain regression stages for the two repaired defects (avar v2 / VarLenArray byte range, CPAL version): must pass
+    ctx.index_stage("regress-corpus", Isolation::Threads, cc.len() as u64, |i| cc[i as usize].clone(), |c, s| test_corpus(&cx, c, s, true));
+    ctx.prop_stage("regress-gen", Isolation::Threads, ctx.n(2_000, 20_000), || gen_strategy(vec![("avar-v2", 1), ("CPAL-v1", 1)]), |c, s| test_gen(c, s, false));
+    // small stage that keeps reproducing the two listed defects (excluded by construction from the stages above)
+    ctx.prop_stage("known-gen", Isolation::Threads, ctx.n(400, 2_000), || gen_strategy(vec![("IVS-zero-axes", 1), ("fvar", 1)]), |c, s| test_gen(c, s, true));
     ctx.finish();
 }
